@@ -1,4 +1,5 @@
 """C16 — queries are pure and observations stay coherent under in-place updates."""
+import copy as _copy
 import json
 import random as _random
 from datetime import timedelta, timezone
@@ -51,7 +52,39 @@ def _plain(props):
     return {k: v for k, v in props.items() if isinstance(v, (int, list))}
 
 
-def do_read(obj, name, arg=None):
+# A read-only call may be handed caller-owned mutable arguments.  One such set lives as long as a history and is handed to
+# every conversion of the live shape, of the argument shape and of returned shapes: a call must leave it untouched, must not
+# hand it back inside its result, must not alter results it returned earlier, and must render the current state whatever
+# the same dict was used for before.  The reference side (fresh twins) always gets a fresh copy.
+CALLER_PROPS = {'source': 'caller', 'k': 'caller-wins', 'tags': ['a', 'b'], 'datetime_start': 'callers-own'}
+
+
+def new_owned():
+    return {'P': _copy.deepcopy(CALLER_PROPS), 'kept': []}
+
+
+def _geojson_digest(obj, owned):
+    o = owned if owned is not None else new_owned()
+    P = o['P']
+    plain = obj.to_geojson()
+    with_p = obj.to_geojson(properties=P)
+    kw = {'id': 7, 'include_bbox': False}
+    with_kw = obj.to_geojson(properties=P, **kw)
+    flags = []
+    if P != CALLER_PROPS or kw != {'id': 7, 'include_bbox': False}:
+        flags.append('ARGUMENT-CHANGED')
+    if with_p['properties'] is P or with_kw['properties'] is P or plain['properties'] is P:
+        flags.append('ARGUMENT-HANDED-BACK')
+    for res, snap in o['kept']:
+        if json.dumps(res, sort_keys=True, default=str) != snap:
+            flags.append('EARLIER-RESULT-CHANGED')
+            break
+    if len(o['kept']) < 3:
+        o['kept'].append((with_p, json.dumps(with_p, sort_keys=True, default=str)))
+    return json.dumps([plain, with_p, with_kw, flags], sort_keys=True, default=str)
+
+
+def do_read(obj, name, arg=None, owned=None):
     """perform the read-only call, return a canonical digest of its answer"""
     if name == 'bounds':
         return list(obj.bounds)
@@ -66,7 +99,7 @@ def do_read(obj, name, arg=None):
     if name == 'linear_rings':
         return json.dumps(obj.linear_rings(), default=_ck)
     if name == 'to_geojson':
-        return json.dumps(obj.to_geojson(), sort_keys=True, default=str)
+        return _geojson_digest(obj, owned)
     if name == 'to_wkt':
         return obj.to_wkt()
     if name == 'to_shapely':
@@ -179,7 +212,7 @@ def _twin_cached(obj, kind, variant, nseq, exp_dt):
     return _TWINS[key]
 
 
-def coherence_flags(obj, kind, variant, nseq, exp_dt=LIVE):
+def coherence_flags(obj, kind, variant, nseq, exp_dt=LIVE, owned=None):
     twin, memo = _twin_cached(obj, kind, variant, nseq, exp_dt)
     if twin is None:
         return 'sssss'
@@ -196,16 +229,16 @@ def coherence_flags(obj, kind, variant, nseq, exp_dt=LIVE):
     flags.append('o' if obj.to_shapely().wkt == ref('shapely', lambda: twin.to_shapely().wkt) else 's')
     rest = ['to_geojson', 'to_wkt', 'repr', 'properties', 'hash', 'times'] + [r for r in ('to_polygon', 'linear_rings', 'circ_rect')
                                                                                if r in READS[kind]]
-    same = (all(do_read(obj, r) == ref('r:' + r, lambda r=r: do_read(twin, r)) for r in rest) and obj == twin and twin == obj
+    same = (all(do_read(obj, r, owned=owned) == ref('r:' + r, lambda r=r: do_read(twin, r)) for r in rest) and obj == twin and twin == obj
             # value semantics re-observed on the live object: it collapses with / is found by a fresh equal shape
             and len({obj, twin}) == 1 and twin in {obj: 1} and obj in {twin: 1})
     flags.append('o' if same else 's')
     return ''.join(flags)
 
 
-def observe(obj, pristine, kind, variant, nseq, exp_dt=LIVE):
+def observe(obj, pristine, kind, variant, nseq, exp_dt=LIVE, owned=None):
     vol = fbits(obj.volume) if kind in og.HAS_VOLUME else '_'
-    return f'{og.show_fields(obj, pristine)};drv={coherence_flags(obj, kind, variant, nseq, exp_dt)};vol={vol}'
+    return f'{og.show_fields(obj, pristine)};drv={coherence_flags(obj, kind, variant, nseq, exp_dt, owned)};vol={vol}'
 
 
 # ---- implementation side ------------------------------------------------------------------------------
@@ -228,17 +261,18 @@ def impl(line):
     exp = [None if d0 is None else (_zulu(og.mk_datetime(d0[0])), _zulu(og.mk_datetime(d0[1])))]
 
     arg_seen = {}
+    owned = new_owned()          # caller-owned arguments of this history, shared by every shape in it
 
     def obs_arg(full):
         # the argument is fully re-observed after every call that was handed it (and at both ends of the history);
         # in between its fields are re-read and the flags stand while the fields stand
         fp = og.show_fields(arg, arg_pristine)
         if full or arg_seen.get('fp') != fp:
-            arg_seen['fp'], arg_seen['obs'] = fp, observe(arg, arg_pristine, akind, avariant, ARG_NSEQ, None)
+            arg_seen['fp'], arg_seen['obs'] = fp, observe(arg, arg_pristine, akind, avariant, ARG_NSEQ, None, owned)
         return arg_seen['obs']
 
     def obs_both(full=True):
-        return f'{observe(live, pristine, kind, variant, nseq, exp[0])}#{obs_arg(full)}'
+        return f'{observe(live, pristine, kind, variant, nseq, exp[0], owned)}#{obs_arg(full)}'
     out = ['ok#' + obs_both()]
     answers = {}
     for op in ops:
@@ -246,7 +280,7 @@ def impl(line):
         res = 'ok'
         try:
             if p[0] in ('r', 'q'):
-                a = do_read(live, p[1], arg if p[0] == 'q' else None)
+                a = do_read(live, p[1], arg if p[0] == 'q' else None, owned)
                 key = (p[0], p[1])
                 if key in answers and answers[key] != a:
                     res = 'CHANGED'          # the same question, a different answer, nothing updated in between
@@ -264,7 +298,7 @@ def impl(line):
                 elif ret is live:
                     res = 'ALIAS'
                 else:
-                    res = (f'ret:{og.show_fields(ret, pristine)};drv={coherence_flags(ret, kind, variant, nseq, new_exp)}')
+                    res = (f'ret:{og.show_fields(ret, pristine)};drv={coherence_flags(ret, kind, variant, nseq, new_exp, owned)}')
         except common.ImplTimeout:
             raise
         except Exception as e:  # noqa
@@ -411,10 +445,13 @@ def area_of(kind, variant, nh, nseq):
 # time bounds are written naive / UTC / in other offsets; `setdtd` passes a datetime, `setdt` a TimeInterval
 UPDATES = ['setdt:_', f'setdt:{T0}:{T0}', f'setdtd:{T0 + 7}', f'setdtd:{T0 + 7}@n', f'setdtd:{T0 + 7}@o120',
            f'setdtd:{T0 + 11}@o-330', f'setdt:{T0 + 5}@o345:{T0 + 90_000_000}@o345', f'setdt:{T0 + 5}@n:{T0 + 90_000_000}',
-           f'setdt:{T0}:{T0 + 1}', 'buffer:1000000', 'buffer:1', 'buffer:-30000000', 'buffer:-9000000000', 'strip',
+           f'setdt:{T0}:{T0 + 1}', f'setdt:{T0 + 5}@zE:{T0 + 3_600_000_000}', f'setdtd:{T0 + 2_400_000_000}@zE', 'buffer:1000000', 'buffer:1', 'buffer:-30000000', 'buffer:-9000000000', 'strip',
            'setprop:k=5', 'setprop:n=7', 'setprop:l=[4;5]', 'setprop:k=[]']
 START_DTS = ['_', f'{T0}:{T0}', f'{T0}@n:{T0}@n', f'{T0}:{T0 + 60_000_000}', f'{T0}@o120:{T0 + 60_000_000}@o120',
-             f'{T0 + 3}@o-330:{T0 + 3_600_000_000}@n', f'{T0 + 3}:{T0 + 3_600_000_000}@o840']
+             f'{T0 + 3}@o-330:{T0 + 3_600_000_000}@n', f'{T0 + 3}:{T0 + 3_600_000_000}@o840',
+             # ends with different tzinfo objects, one in a zone with a jump in between (`@zE` hand-written, `@zNY` tz database)
+             f'{T0}@zE:{T0 + 3_600_000_000}', f'{T0 + 3}@zE:{T0 + 3_600_000_000}@zE', f'{og.BASE_NY}@zNY:{og.BASE_NY + 3_600_000_000}@o60',
+             f'{T0}@o60:{T0 + 3_600_000_000}@zE']
 NSEQ = {'polygon': 5, 'linestring': 3, 'mpoint': 3, 'mline': 2, 'mpoly': 2}
 
 
@@ -428,7 +465,7 @@ def gen_systematic():
     """every kind x every update in both modes, each surrounded by every applicable read"""
     lines = []
     for ki, kind in enumerate(og.KINDS):
-        dt = START_DTS[3 + ki % 4]
+        dt = START_DTS[3 + ki % 8]
         for variant in ((0, 1) if kind == 'ring' else (0,)):
             nh = 1 if kind in og.HAS_HOLES else 0
             reads = READS[kind]
@@ -441,6 +478,9 @@ def gen_systematic():
                     for r in reads:
                         ops.append(f'r:{r}')
                     lines.append(head(kind, variant, nh, dt, 'k=1', 'box') + ' ; ' + ' ; '.join(ops))
+            # no-op updates: every update on a shape without time bounds / repeated on its own result, both modes
+            for ip in ('0', '1'):
+                lines.append(head(kind, variant, nh, '_', 'k=1', 'point') + ' ; ' + ' ; '.join(f'u:{u}:{ip}' for u in ['strip', 'setdt:_', 'buffer:1'] + UPDATES[:3] + ['strip', 'strip', 'setprop:k=1']))
             # every read twice in a row, every predicate against every argument kind
             lines.append(head(kind, variant, nh, dt, 'k=1,l=[1;2]', 'polygon') + ' ; ' +
                          ' ; '.join(f'r:{r} ; r:{r}' for r in reads))
@@ -499,7 +539,10 @@ def check(run):
              'the value-level meaning of the updates, and (flags) with a freshly constructed twin having the same fields — built from the '
              'time bounds exactly as the caller wrote them (naive / UTC / other offsets; datetime or TimeInterval argument), so that '
              'also their rendering (isoformat, utcoffset, GeoJSON strings) and hash / == / set / dict behaviour against the twin are '
-             're-observed after every update.  '
+             're-observed after every update.  Time bounds also with different tzinfo objects on the two ends, one in a zone whose '
+             'offset jumps inside the interval (hand-written tzinfo, tz database zone).  Conversions are handed caller-owned mutable '
+             'arguments that live as long as the history and are shared by all its shapes: they must stay untouched, not be handed '
+             'back, earlier results must stand, the current state must be rendered.  '
              'Non-trivial = all; distinct by line.',
         assumptions=['derived observations (bounds, centroid, area, shapely form, WKT, GeoJSON, polygon form) are compared against a '
                      'freshly constructed twin, not recomputed by the model: what they are is the subject of C03/C09/C13/C14; bounds '
